@@ -51,6 +51,13 @@ func (w *world) oracle(skip bool) {
 				o.Violate(Prop, "S1-soundness", "verify", c.Return, "%v accepted but no admissible download contains its signing key", c)
 			}
 		}
+		// S7 own cancellation is honoured: a caller whose context ends while it waits returns in that very step, with an error
+		if c.CtxDead >= 0 {
+			o.Probe("own-context-ended-while-waiting")
+			if c.Return != c.CtxDead || c.OK {
+				o.Violate(Prop, "S7-own-cancel", "verify", c.Return, "%v: its own context ended at step %d while it was waiting, but it returned at step %d with ok=%v", c, c.CtxDead, c.Return, c.OK)
+			}
+		}
 		// S5 bounded refresh
 		if c.Owned > 1 {
 			o.Violate(Prop, "S5-bounded-refresh", "verify", c.Return, "%v started %d downloads", c, c.Owned)
